@@ -211,6 +211,5 @@ def run(chk, arch, unit, api_unit, rule="R-NAME-INDEX"):
             chk.ob(R3, "%s|%s|advance@%s" % (arch, fn.name.split("::")[-1], " ".join(fn.text(inc).split())[:20]), ("decoded",) in st, loc=fn.loc(inc),
                    detail="the scan advances to the next id on a path that never decoded the current one: ids whose name is stored in the skipped "
                           "form can no longer be found by name")
-    if arch == "a64":
-        chk.floor(R3 + ":a64-loops", scanned, 1)
+    # (no floor: a reader that does not scan linearly - e.g. a binary search - is decided by the index preconditions above)
     return decoded
